@@ -127,11 +127,17 @@ def prove(built, fn, verbose=False, trace=False, keep=False, case=None, extra_de
         inl.add(x)
         work.extend(built.report[x]['callees'] if x in built.report else [])
     loops_needed = 0
+    unwound = []
     for x in inl:
         nl = built.report[x]['loops'] if x in built.report else 0
         if nl:
             xs = built.model.specs.get(x)
             have = len([k for k in (xs.loops if xs else {}) if xs.loops[k]['invariant']])
+            if sp.bound is not None:
+                loops_needed += have        # bounded stand-in: loops without a contract (the function's own and inlined ones) are unwound
+                if have < nl:
+                    unwound.append((x, nl))
+                continue
             if have < nl:
                 res['status'] = 'undecided'; res['reason'] = 'loop without contract in %s (inlined into %s)' % (x, fn)
                 return res
@@ -144,6 +150,9 @@ def prove(built, fn, verbose=False, trace=False, keep=False, case=None, extra_de
     if case:
         defs.append('-DCASE_%s' % case)
     defs += list(extra_defs)
+    if sp.bound is not None:
+        defs.append('-DBOUND=%d' % sp.bound)
+        res['bounded'] = sp.bound
     for d in getattr(sp, 'defines', []):
         defs.append('-D' + d)
     gb = os.path.join(wd, 'a.gb'); gb2 = os.path.join(wd, 'b.gb')
@@ -164,9 +173,20 @@ def prove(built, fn, verbose=False, trace=False, keep=False, case=None, extra_de
         res['status'] = 'undecided'; res['reason'] = 'goto-instrument failed: ' + (se or so)[-1500:]
         return res
     flags = [f for f in CBMC_CHECKS if f not in cfg.get('drop_checks', [])] + list(sp.flags)
+    if sp.bound is not None:
+        # bounded stand-in: the function's own loops (DFCC renames the checked function) are unwound bound+1 times, with unwinding assertions
+        us = []
+        for x, nl in unwound:
+            for k in range(nl):
+                us.append('%s.%d:%d' % (x, k, sp.bound + 1))
+                if x == fn:
+                    us.append('%s_wrapped_for_contract_checking.%d:%d' % (x, k, sp.bound + 1))
+        if us:
+            flags += ['--unwindset', ','.join(us)]
+        flags += ['--unwinding-assertions']
     if build_only:
-        return {'gb2': gb2, 'flags': [f for f in flags if ('--no' + f[1:]) not in sp.flags and not f.startswith('--no-')], 'wd': wd}
-    flags = [f for f in flags if ('--no' + f[1:]) not in sp.flags and not f.startswith('--no-')]
+        return {'gb2': gb2, 'flags': [f for f in flags if ('--no' + f[1:]) not in sp.flags], 'wd': wd}
+    flags = [f for f in flags if ('--no' + f[1:]) not in sp.flags]      # a '--no-<check>' of the spec removes the check and is passed on (CBMC 6 enables it by default)
     res['checker_cmd'] = 'goto-cc --function harness_%s | goto-instrument --dfcc harness_%s --enforce-contract %s %s%s| cbmc %s (postconditions solved one per solver instance, the remaining obligations together)' % (
         fn, fn, fn, ''.join('--replace-call-with-contract %s ' % g for g in replaced), '--apply-loop-contracts ' if loops_needed else '', ' '.join(flags))
     # property list, then partition: every postcondition in its own solver instance (measured: solving them together is
@@ -350,7 +370,7 @@ def main():
                     if os.environ.get('VERIF_TIMINGS'):
                         with open(os.environ['VERIF_TIMINGS'], 'a') as tf:
                             tf.write(json.dumps({'cfg': r['cfg'], 'fn': r['fn'], 'status': r['status'], 'wall_s': r['time_s'], 'cpu_s': r.get('solver_s'), 'obligations': r['obligations']}) + '\n')
-                    for f in r['failed'][:6]:
+                    for f in r['failed'][:int(os.environ.get('VERIF_SHOW', '6'))]:
                         print('     FAILED %s line %s %s | %s | %s' % (f['property'], f['line'], f['tags'], f['description'][:110], f['clause'] or ''))
                     if a.trace and r.get('trace'):
                         for t in r['trace']:
